@@ -38,7 +38,9 @@ Not decided (never alarmed; counted as inconclusive or accepted either way):
     (numpy.round overflows to inf), nan_str that is itself a number, non-ASCII text (locale dependent),
     series with no observation on the exported span (absent or empty), write/read options that do not
     correspond to each other
-  * CSV: series WITHOUT a start period (frequency unknown): absent or empty after the round trip; exceptions of
+  * CSV: series WITHOUT a start period (frequency unknown): with default spans and at least one dated observation in the
+    file they come back as empty series under their names (decided since the fourth seeded round); otherwise absent or
+    empty after the round trip; exceptions of
     from_csv_file on files that contain such a series are counted as inconclusive (observed: a file with only
     such series has no data rows -> IndexError; start_period_only=True or a custom period_from_string on the
     empty date cell -> TypeError/ValueError). Every series with a start period in the same file is still compared
